@@ -83,7 +83,7 @@ let run_line (w : world) (line : n list) : world * z list =
       ({ w with log = ("hp:" ^ String.concat "," rest) :: w.log }, [z_of_int st])
   | prog :: file :: lst :: _ when ends_with prog "/seq" ->
       let k = try List.assoc file w.ctr with Not_found -> 0 in
-      let sts = List.map int_of_string (String.split_on_char ',' lst) in
+      let sts = List.map (fun x -> try int_of_string x with _ -> 2) (String.split_on_char ',' lst) in
       let st = List.nth sts (min k (List.length sts - 1)) in
       ({ w with log = ("seq:" ^ file ^ "," ^ lst) :: w.log; ctr = (file, k + 1) :: List.remove_assoc file w.ctr }, [z_of_int st])
   | [] -> (w, [])
